@@ -67,6 +67,12 @@ class Lifecycle(object):
   def features(self, c):
     if c.lost or c.up:
       return
+    if c.got_features:
+      # a second features reply inside the handshake (outside the statement's multiset of handshake replies):
+      # like the first, it describes the ports as they are now, so port-status messages that arrived before it
+      # may be delivered or dropped
+      c.ps_optional.extend(c.ps_mandatory)
+      c.ps_mandatory = []
     c.got_features = True
     c.dpid = c.peer_dpid
 
